@@ -79,6 +79,19 @@ fn region(f: &str, a: &[usize]) {
     let r = Region::new(Address::from(a[0]), Address::from(a[1]));
     let other = || Region::new(Address::from(a[2]), Address::from(a[3]));
     match f {
+        "all" => {
+            println!("start={}", r.start().to_usize());
+            println!("end={}", r.end().to_usize());
+            println!("contains={}", b(r.contains(Address::from(a[2]))));
+            println!("valid_top={}", b(r.valid_top(Address::from(a[2]))));
+            println!("size={}", r.size());
+            println!("empty={}", b(r.empty()));
+        }
+        "pairs" => {
+            println!("disjunct={}", b(r.disjunct(&other())));
+            println!("overlaps={}", b(r.overlaps(&other())));
+            println!("fully={}", b(r.fully_contains(&other())));
+        }
         "new" => println!("ret={},{}", r.start().to_usize(), r.end().to_usize()),
         "contains" => println!("ret={}", b(r.contains(Address::from(a[2])))),
         "valid_top" => println!("ret={}", b(r.valid_top(Address::from(a[2])))),
@@ -125,6 +138,20 @@ pub fn gck(args: &[String]) {
         "region" => region(&args[1], &nums(2)),
         "arraysize" => { let a = nums(1); println!("ret={}", gen::mirror::gck_array_size(a[0], a[1])); }
         "table" => table(&args[1..]),
+        "batch" => {
+            // one command per stdin line (without the leading `gck`); results separated by `--` lines
+            use std::io::BufRead;
+            for line in std::io::stdin().lock().lines() {
+                let a: Vec<String> = line.unwrap().split_whitespace().map(|s| s.to_string()).collect();
+                if a.is_empty() { continue; }
+                let r = std::panic::catch_unwind(move || gck(&a));
+                if let Err(e) = r {
+                    let msg = if let Some(s) = e.downcast_ref::<String>() { s.clone() } else if let Some(s) = e.downcast_ref::<&str>() { s.to_string() } else { "?".to_string() };
+                    println!("panic={}", msg.replace('\n', " "));
+                }
+                println!("--");
+            }
+        }
         "consts" => {
             println!("max_tlab_object_size={}", gen::tlab::MAX_TLAB_OBJECT_SIZE);
             println!("page_size={}", gen::swiper::PAGE_SIZE);
